@@ -136,6 +136,7 @@ func (w ConsoleWriter) Write(p []byte) (n int, err error) {
 	}()
 
 	var evt map[string]interface{}
+	origPLen := len(p)
 	p = decodeIfBinaryToBytes(p)
 	d := json.NewDecoder(bytes.NewReader(p))
 	d.UseNumber()
@@ -170,7 +171,7 @@ func (w ConsoleWriter) Write(p []byte) (n int, err error) {
 	}
 
 	_, err = buf.WriteTo(w.Out)
-	return len(p), err
+	return origPLen, err
 }
 
 // Call the underlying writer's Close method if it is an io.Closer. Otherwise
